@@ -646,6 +646,7 @@ func (c *client) execute(raw *frame.RawFrame, state idempotentState, isSelect bo
 			frm:      c.maybeOverrideUnsupportedWriteConsistency(isSelect, raw, body),
 			isSelect: isSelect,
 		}
+		verifTrace("start", req, c, int64(raw.Header.StreamId), int64(state), 0, verifPlan(req))
 		req.Execute(true)
 	} else {
 		c.send(raw.Header, &message.ServerError{ErrorMessage: "Attempted to use invalid keyspace"})
